@@ -239,6 +239,9 @@ def report(pid, tier, seed, P, mod, gens, meta, errors, t_start, args, jobs):
         rr_b = run_replayer(pid, mod, [pseudo], seed, tier)
         r_b = rr_b.get(obligation_key(pseudo))
         bounded = dict(ran=True, found=bool(r_b and r_b.get("found")), wall_s=round(time.time() - t_b, 1))
+        if r_b is None or r_b.get("error"):
+            # the harness itself failed (its own defect, or edited code it cannot drive): checker error, neither "nothing found" nor a violation
+            bounded["error"] = (r_b or {}).get("error", "the harness produced no result")
         # listed findings the harness observed again (matched by witness tag; anything else it finds is a violation)
         for tag in (r_b or {}).get("known", []):
             for kf in known:
@@ -273,6 +276,9 @@ def report(pid, tier, seed, P, mod, gens, meta, errors, t_start, args, jobs):
         rc = 1
     if undecided and rc == 0:
         rc = 2
+    if bounded.get("error") and rc == 0:
+        rc = 3
+        lines.append(f"ENGINE-ERROR property={pid} task=bounded-search: the native harness failed: {bounded['error']}")
     for m in undecided:
         lines.append(f"UNDECIDED property={pid} obligation {m['func']} :: {m['name']} (task {m['task']}): {m['verdict']} {m.get('reason', '')}")
     P.bounded_run = bounded
